@@ -124,6 +124,9 @@ func (env *SpecEnv) objValue(e *SExpr, o types.Object) TV {
 			return TV{v, x.Type()}
 		}
 		if x.Pkg() != nil && x.Parent() == x.Pkg().Scope() {
+			if vc.prog.AddrTakenGlobals[x] {
+				return TV{vc.loadPtrQuiet(env.st, x.Type(), vc.globalAddr(x)), x.Type()}
+			}
 			if !vc.prog.MutableGlobals[x] {
 				if _, hasInit := vc.prog.GlobalInit[x]; !hasInit {
 					if _, known := vc.prog.GlobalInfo[x]; known {
@@ -267,7 +270,7 @@ func (env *SpecEnv) evalQuant(e *SExpr) TV {
 		if lo, hi, ok := intRange(ty); ok && !is64(ty) {
 			ranges = append(ranges, And(Le(BigLit(lo), v), Le(v, BigLit(hi))))
 		} else if _, ok := ty.Underlying().(*types.Pointer); ok {
-			ranges = append(ranges, Ge(v, IntLit(0)))
+			ranges = append(ranges, Ge(v, IntLit(0)), refTyped(ty, v))
 		}
 	}
 	body := n.evalBool(e.X)
@@ -539,6 +542,14 @@ func (env *SpecEnv) evalCall(e *SExpr) TV {
 		case "allocated":
 			x := env.eval(e.Args[0])
 			return TV{Lt(x.T, env.st.alloc), B}
+		case "lastIndex", "indexOf":
+			a := env.eval(e.Args[0])
+			b := env.eval(e.Args[1])
+			fn := "std.strings.LastIndex"
+			if name == "indexOf" {
+				fn = "std.strings.Index"
+			}
+			return TV{App(fn, SInt, a.T, b.T), types.Typ[types.Int]}
 		case "prefixof":
 			a := env.eval(e.Args[0])
 			b := env.eval(e.Args[1])
